@@ -97,9 +97,27 @@ class Stack(Sequence[T]):
 
     def drop_snapshot(self) -> None:
         """Drop the last snapshot."""
+        if not self.lengths:
+            return
+
+        item_count, remained_count = self.lengths.pop()
+        popped_count = item_count - remained_count
+        if not popped_count:
+            return
+
+        # Items popped since the dropped snapshot are at the end of `popped`.
+        start = len(self.popped) - popped_count
+        dropped = self.popped[start:]
+        del self.popped[start:]
+
         if self.lengths:
-            item_count, remained_count = self.lengths.pop()
-            del self.popped[item_count - remained_count :]
+            outer_count, outer_remained = self.lengths[-1]
+            if remained_count < outer_remained:
+                # Some items popped since the dropped snapshot existed when the
+                # enclosing snapshot was taken. They now belong to that snapshot.
+                inherited_count = outer_remained - remained_count
+                self.popped.extend(dropped[popped_count - inherited_count :])
+                self.lengths[-1] = (outer_count, remained_count)
 
     def restore(self) -> None:
         """Rewind the stack to the most recent snapshot.
